@@ -195,6 +195,8 @@ Part 2, synchronisation.  `WF r`: a present leader has a non-zero peer id (0 is 
 * `incremental_sync_follower_eq_leader` – a follower that equals the leader at index `i` and
   synchronises after the leader accepted at most `capacity` further changes equals the leader again
   (cache and next index), for every reachable history buffer and every list of changes.
+* `broadcast_messages_exact` – the broadcast messages for any sequence of changes are exactly the accepted
+  changes, once each, in order, with chained start indexes.
 * `full_sync_unfixed_counterexample` – F3 on the pinned tree before the repair.
 -/
 
@@ -386,6 +388,44 @@ theorem incremental_sync_follower_eq_leader (batch cap flush : Nat) (kv : Option
       rw [this, hidx1, hfi]
       simp [incrementalMsg, hfi]
 
+/-- the messages `RunServer` broadcasts for a sequence of changed regions -/
+def leaderPutsMsgs : Leader → List Region → List Msg
+  | _, [] => []
+  | l, r :: rs =>
+    match leaderPut l r with
+    | (l', some m) => m :: leaderPutsMsgs l' rs
+    | (l', none) => leaderPutsMsgs l' rs
+
+/-- **Broadcasts are exactly the changes.**  For every leader state and every sequence of changed regions the
+    broadcast messages, decoded positionally, are the accepted changes – every one once, in order, each region
+    with its own leader and flow statistics – and their start indexes continue the leader's index. -/
+theorem broadcast_messages_exact (rs : List Region) (hwf : ∀ r ∈ rs, WF r) :
+    ∀ l : Leader, (leaderPutsMsgs l rs).flatMap decode = acceptedOf l.cache rs ∧
+      Chained l.hist.index (leaderPutsMsgs l rs) := by
+  induction rs with
+  | nil => intro l; exact ⟨rfl, trivial⟩
+  | cons r rs ih =>
+    intro l
+    have ih' := ih (fun x hx => hwf x (by simp [hx]))
+    simp only [leaderPutsMsgs, acceptedOf]
+    by_cases hs : isStale l.cache r = true
+    · have : leaderPut l r = (l, none) := by simp [leaderPut, hs]
+      rw [this]; simp only [hs, if_true]
+      exact ih' l
+    · have hs' : isStale l.cache r = false := by simpa using hs
+      have h1 : leaderPut l r = ({ l with cache := putRegion l.cache r, hist := record l.hist r false },
+          some { start := l.hist.index, regions := [r.md], stats := [r.stat], leaders := [wireLeader r] }) := by
+        simp [leaderPut, hs']
+      rw [h1]; simp only [hs', Bool.false_eq_true, if_false, List.flatMap_cons]
+      obtain ⟨h2, h3⟩ := ih' { l with cache := putRegion l.cache r, hist := record l.hist r false }
+      have hdec : decode { start := l.hist.index, regions := [r.md], stats := [r.stat], leaders := [wireLeader r] } = [r] := by
+        have := decode_encode l.hist.index [r] (by simpa using hwf r (by simp))
+        simpa using this
+      refine ⟨by rw [hdec, h2]; rfl, rfl, ?_⟩
+      simp only [List.length_singleton]
+      have : (record l.hist r false).index = l.hist.index + 1 := (record_fields l.hist r false).2.2.2.2.1
+      rw [← this]; exact h3
+
 /-- a live follower (bound stream) that equals the leader stays equal when a changed region is
     broadcast -/
 theorem broadcast_follower_eq_leader (l : Leader) (r : Region) (hwf : WF r) (f : Follower)
@@ -435,12 +475,15 @@ theorem full_sync_unfixed_counterexample :
 /-- structure obligations, re-checked against the facts regenerated from the Go source on every run:
     the three operations of the change log are one critical section each; `ResetWithIndex` persists the new
     index (repair of F12, `resetWithIndex` in the model); the full-synchronisation loop truncates all three of
-    its parallel slices after a batch (repair of F3, `fullSyncLoop … false` in the model). -/
+    its parallel slices after a batch (repair of F3, `fullSyncLoop … false` in the model); `RunServer` calls
+    `broadcast` synchronously (no `go`), so a message is serialised before the loop re-uses its `requests` array
+    (`leaderPut` in the model hands over a finished message). -/
 theorem history_sections_locked :
     PdModel.Generated.Syncer.recordIsOneSection = true ∧
     PdModel.Generated.Syncer.recordsFromIsOneSection = true ∧
     PdModel.Generated.Syncer.resetIsOneSection = true ∧
     PdModel.Generated.Syncer.resetPersists = true ∧
-    PdModel.Generated.Syncer.fullSyncTruncated = ["leaders", "metas", "stats"] := by decide
+    PdModel.Generated.Syncer.fullSyncTruncated = ["leaders", "metas", "stats"] ∧
+    PdModel.Generated.Syncer.broadcastIsSynchronous = true := by decide
 
 end PdModel.Syncer
